@@ -191,6 +191,11 @@ def negative_tests(acc_viol):
         "Expression==Point": lambda: e == p, "Expression<=str": lambda: e <= "a", "Expression==None": lambda: e == None,  # noqa
         "Expression>=list": lambda: g >= [1], "int-Point": lambda: 3 - p, "int+Point": lambda: 3 + p,
         "Expression**2": lambda: e ** 2,
+        # fixed-width numpy integers are not python ints: unsigned ones wrap around under negation, narrow ones overflow
+        "Expression+np.uint8": lambda: e + np.uint8(3), "Expression-np.uint8": lambda: g - np.uint8(3),
+        "Expression<=np.uint8": lambda: e <= np.uint8(3), "Expression==np.uint64": lambda: e == np.uint64(3),
+        "Expression*np.uint8": lambda: g * np.uint8(100), "Expression+np.int64": lambda: e + np.int64(2),
+        "Expression-np.int32": lambda: e - np.int32(2), "Expression>=np.uint16": lambda: e >= np.uint16(7),
     }
     n = 0
     for name, fn in bad.items():
